@@ -258,6 +258,10 @@ def make_settings(op, model):
     kw = dict(progress_bar=False)
     if op["algo"] in MCMC:
         kw["n_iter"] = op.get("n_iter", 12)
+        if op.get("annealing"):
+            # nested settings (the annealing dictionary) are part of the caller's object too: the algorithm resolves
+            # annealing.n_iter from the fraction and must write it into its own copy only
+            kw["annealing"] = dict(do_annealing=True, n_plateau=3, initial_temperature=4.0)
     return AlgorithmSettings(op["algo"], seed=op["seed"], **kw)
 
 
@@ -619,6 +623,8 @@ def gen_sequence(rng):
                       **{"as": rng.choice(["df", "df", "data", "dataset"])}, seed=rng.randint(0, 99))
             if algo in MCMC:
                 op["n_iter"] = rng.randint(6, 14)
+                if rng.random() < 0.35:
+                    op["annealing"] = True
             ops.append(op)
     return dict(kind=kind, ops=ops)
 
@@ -628,12 +634,12 @@ DIRECTED = [
     dict(kind="logistic", ops=[dict(op="fit", cohort=1, n_iter=6, seed=3),
                                {"op": "personalize", "algo": "scipy_minimize", "cohort": 2, "ids": [0, 3], "as": "df", "seed": 5}]),
     dict(kind="logistic", ops=[dict(op="fit", cohort=1, n_iter=6, seed=3),
-                               {"op": "personalize", "algo": "mean_posterior", "cohort": 2, "ids": [0, 1, 3], "as": "data", "seed": 5, "n_iter": 10},
+                               {"op": "personalize", "algo": "mean_posterior", "cohort": 2, "ids": [0, 1, 3], "as": "data", "seed": 5, "n_iter": 10, "annealing": True},
                                {"op": "personalize", "algo": "scipy_minimize", "cohort": 2, "ids": [0, 3], "as": "dataset", "seed": 5},
                                dict(op="estimate", form="multiindex", n=2, seed=4),
                                dict(op="simulate", visits="dataframe", seed=9)]),
     dict(kind="logistic", ops=[dict(op="load"),
-                               {"op": "personalize", "algo": "mode_posterior", "cohort": 3, "ids": [1, 2], "as": "df", "seed": 8, "n_iter": 9},
+                               {"op": "personalize", "algo": "mode_posterior", "cohort": 3, "ids": [1, 2], "as": "df", "seed": 8, "n_iter": 9, "annealing": True},
                                dict(op="simulate", visits="random", seed=2), dict(op="save"), dict(op="load"),
                                {"op": "personalize", "algo": "scipy_minimize", "cohort": 3, "ids": [1], "as": "df", "seed": 8}]),
     dict(kind="joint", ops=[dict(op="fit", cohort=2, n_iter=5, seed=1),
